@@ -9,6 +9,7 @@ from ..core import call_attr, calls_in, dotted, kwarg, norm, slice_parts, text, 
 from . import c09
 
 EXPLANATION = [
+    'C07.credit-ledger: every normal exit of LeCreditBasedChannel.on_credits has added the received amount to the balance and called process_output() (path rule): no state test can discard returned credits.',
     'C07.integer-arithmetic: no true division in the anchored modules: sizes and budgets are integers (a fractional budget admits one entry too many).',
     'C07.fifo: every deque of the anchored modules that is filled with append / extend is emptied with popleft or by iteration (never pop()), and conversely: queued entries come out in the order they went in.',
     'C07.unordered-pairing: no zip() / enumerate() pairs positions with a set (literal, comprehension, set() call or a name bound only to such): the order of a set is arbitrary.',
@@ -380,7 +381,34 @@ def integer_arithmetic_rule(ctx):
     integer_arithmetic(ctx, 'C07.integer-arithmetic', ['bumble.l2cap'])
 
 
+def credit_ledger(ctx):
+    """Credits returned by the peer are always added to the balance and the output is pumped: every way through on_credits
+    has executed `self.credits += credits` (no state test in front of it: the acceptor side never sets the flags the
+    initiator path sets)."""
+    R, p = ctx.r, ctx.p
+    rule = 'C07.credit-ledger'
+    fn = p.find(f'{LE}.on_credits')
+    if fn is None:
+        R.bad(rule, f'{LE}.on_credits', 'anchor missing')
+        return
+    par = fn.args.args[1].arg
+
+    class D(paths.Domain):
+        def event(self, node, v):
+            if isinstance(node, ast.AugAssign) and dotted(node.target) == 'self.credits' and isinstance(node.op, ast.Add) and norm(node.value) == par:
+                return ((True, v[1]),)
+            if isinstance(node, ast.Call) and dotted(node.func) == 'self.process_output':
+                return ((v[0], True),)
+            return (v,)
+    res = paths.run(fn, D(), (False, False))
+    ex = paths.normal_exits(res)
+    bad = [' '.join(w) for v, w in ex.items() if v != (True, True)]
+    R.check(not bad and bool(ex), rule, f'{LE}.on_credits | every path credits and pumps', 'balance raised by the received amount and process_output() called on every exit',
+            'on_credits can return without adding the received credits (or without resuming output): a channel on which that path is taken spends its initial credits and then stalls for ever', p.loc(fn), bad[:2])
+
+
 RULES = [
+    ('C07.credit-ledger', credit_ledger),
     ('C07.integer-arithmetic', integer_arithmetic_rule),
     ('C07.fifo', fifo_rule),
     ('C07.unordered-pairing', unordered_pairing_rule),
